@@ -268,7 +268,15 @@ def eval_clause(fn, spec, views, **extra):
     if not any(p.kind == p.VAR_KEYWORD for p in sig.parameters.values()):
         extra = {k: v for k, v in extra.items() if k in sig.parameters}
         views = {k: v for k, v in views.items() if k in sig.parameters}
-    r = fn(spec, **views, **extra)
+    try:
+        r = fn(spec, **views, **extra)
+    except (AttributeError, TypeError, KeyError, IndexError) as ex:
+        # the clause is written for values of a certain shape (a dict display, an object with these fields ...); the code now hands over
+        # something else: the contract does not cover this code - undecided, neither a crash nor a violation
+        import traceback
+
+        where = traceback.extract_tb(ex.__traceback__)[-1]
+        raise Unsupported("a clause of the contract cannot be evaluated on the values this code produces (%s: %s at %s:%d)" % (type(ex).__name__, ex, where.filename.split("/")[-1], where.lineno))
     if r is None:
         return {}
     if isinstance(r, dict):
@@ -361,14 +369,16 @@ def apply_contract(I, con, args, kwargs, fi=None, callee_label=None):
     views = views_of(spec, typed_bound, old_heap)
     for lab, f in eval_clause(con.requires, spec, views).items():
         ctx.oblige("%s/requires[%s]" % (short(label), lab), f, kind="pre")
-    tr_old_len = ctx.trlen
     if getattr(con, "ghost_call", None) is not None:
         con.ghost_call(spec, ctx, **views)
-    if con.emits is not None:
-        con.emits(spec, ctx, **views)
     if con.announce:
+        # the caller's marker of the call comes BEFORE the callee's own events: the callee's clauses count their events from after it
+        # (they were proved on the body, where there is no such marker)
         vals = [v for k, v in typed_bound.items()]
         ctx.emit("call", con.key, vals[0] if vals else None, vals[1] if len(vals) > 1 else None, vals[2] if len(vals) > 2 and isinstance(vals[2], SV) else None)
+    tr_old_len = ctx.trlen
+    if con.emits is not None:
+        con.emits(spec, ctx, **views)
     if con.delegate is not None:
         return con.delegate(I, **typed_bound)
     apply_writes(I, con, spec, views)
